@@ -34,3 +34,41 @@ def _reserved(repo):
         raise KeyError("RESERVED_NAMES")
     names = re.findall(r'"([^"]+)"', m.group(1))
     return names, "def c03ReservedNames : List String := [%s]" % ", ".join(lean_str(n) for n in names)
+
+
+@item("C03_MACRO_CALLER")
+def _macro_caller(repo):
+    v = const(read(repo, "minijinja/src/compiler/instructions.rs"), "MACRO_CALLER")
+    return v, f"def c03MacroCaller : Nat := {v}"
+
+
+@item("C03_CAPTURE_MODES")
+def _capture_modes(repo):
+    src = read(repo, "minijinja/src/output.rs")
+    body = fn_body(src, r"pub enum CaptureMode\s*\{")
+    names = re.findall(r"^\s*([A-Z]\w*)\s*,", re.sub(r"#\[[^\]]*\]", "", body), re.M)
+    if not names:
+        raise KeyError("CaptureMode variants")
+    return names, "def c03CaptureModes : List String := [%s]" % ", ".join(lean_str(n) for n in names)
+
+
+@item("C03_INSTRUCTIONS")
+def _instructions(repo):
+    src = read(repo, "minijinja/src/compiler/instructions.rs")
+    body = fn_body(src, r"pub enum Instruction<'source>\s*\{")
+    body = re.sub(r"//[^\n]*", "", body)
+    body = re.sub(r"#\[[^\]]*\]", "", body)
+    names = re.findall(r"^\s*([A-Z]\w*)\s*(?:\([^)]*\))?\s*,", body, re.M)
+    if len(names) < 40:
+        raise KeyError("Instruction variants")
+    return names, "def c03Instructions : List String := [%s]" % ", ".join(lean_str(n) for n in names)
+
+
+@item("C03_TEST_NAMES")
+def _tests(repo):
+    src = read(repo, "minijinja/src/defaults.rs")
+    body = fn_body(src, r"fn build_builtin_tests\(\)[^{]*\{")
+    names = sorted(set(re.findall(r"rv\.insert\(\s*\"([^\"]+)\"\.into\(\)", body)))
+    if len(names) < 10:
+        raise KeyError("builtin test registrations")
+    return names, "def c03BuiltinTestNames : List String := [%s]" % ", ".join(lean_str(n) for n in names)
